@@ -108,6 +108,15 @@ Theorem C12_rx1_channel_after_history : forall c, In c band_configs ->
 Proof. exact rx1_channel_after_history. Qed.
 Print Assumptions C12_rx1_channel_after_history.
 
+(* GetRX1FrequencyForUplinkFrequency is total: for ANY frequency (channel or not, 1 Hz beside a
+   channel) and ANY channel lists the regions answering RX1 on the uplink frequency return exactly
+   the argument ([rx1_frequency_any_ok]) *)
+Theorem C12_rx1_frequency_any : forall c, In c band_configs ->
+  forall reg, region_of (c_name c) = Some reg -> forall (t : tables) (f : Z),
+  rx1_frequency_any_ok reg f (get_rx1_frequency (with_tables c t) f) = true.
+Proof. exact rx1_frequency_any. Qed.
+Print Assumptions C12_rx1_frequency_any.
+
 (* ping-slot frequency: the region's fixed frequency, or hopping over the 8 downlink
    channels by (DevAddr + floor(beacon_time / 128 s)) mod 8; all DevAddr >= 0 and all
    beacon times >= 0 ns *)
